@@ -125,6 +125,14 @@ def run(chk):
         if i != w:
             chk.violate({"kind": "property", "case": lib.show_case(("clparse", [t])), "impl": i[:2000], "expected": w[:2000],
                          "explanation": "a dpkg-format changelog was not parsed into its entries (source, version, distributions, options, text, maintainer, timestamp and zone)"})
+    # the other entry points: ParseFile on a real file, ParseOne / ParseFileOne for the first entry
+    vc = [("clvariants", [t]) for t in texts[::4]]
+    vi = chk.run_impl(vc)
+    chk.record("entry-point-variants", vc, vi, lambda c, r: r == "same")
+    for c, r in zip(vc, vi):
+        if r != "same":
+            chk.violate({"kind": "property", "case": lib.show_case(c), "impl": r[:1500],
+                         "explanation": "ParseFile / ParseOne / ParseFileOne do not return the entries that Parse returns for the same changelog"})
     # the date oracle itself against Python's RFC 2822 parser (supporting evidence about the oracle)
     bad = 0
     for w, a in list(ans.items())[:2000]:
